@@ -85,7 +85,10 @@ protected:
 
     void wait(bool fastmode) {
       if (fastmode) {
-        while (!fastRelease.load(std::memory_order_relaxed)) {
+        // acquire: pairs with the store in wakeup() so that everything the
+        // waking thread wrote before (wbegin/wend, the work function, user
+        // data) is visible once the release flag has been seen
+        while (!fastRelease.load(std::memory_order_acquire)) {
           asmPause();
         }
         fastRelease = 0;
